@@ -491,6 +491,21 @@ func runC14(c *engine.Ctx) {
 							}
 							return mkm(gen.Map().Set("setup", setup).Set("adjustments", gen.Seq(gen.Map().Set("with", with).Set("soft_fail", gen.Bool(true)))))
 						}
+						// every listed adjustment counts, also one that repeats the tuple of another, and tuples whose
+						// printed forms coincide are different tuples
+						adjs := func(as ...*gen.Node) []byte {
+							return mkm(gen.Map().Set("setup", gen.Map().Set("a", gen.Seq(gen.Str("1"), gen.Str("1 b:2"))).Set("b", gen.Seq(gen.Str("3"), gen.Str("2 b:3")))).Set("adjustments", gen.Seq(as...)))
+						}
+						withAB := func(a, b string) *gen.Node { return gen.Map().Set("a", gen.Str(a)).Set("b", gen.Str(b)) }
+						a1 := gen.Map().Set("with", withAB("1", "3")).Set("skip", gen.Bool(true))
+						a2 := gen.Map().Set("with", withAB("1", "3")).Set("soft_fail", gen.Bool(true))
+						a3 := gen.Map().Set("with", withAB("1 b:2", "3")).Set("soft_fail", gen.Bool(true))
+						a4 := gen.Map().Set("with", withAB("1", "2 b:3")).Set("soft_fail", gen.Bool(true))
+						for _, pr := range [][2][]byte{{adjs(a1, a2), adjs(a2)}, {adjs(a1, a2), adjs(a1)}, {adjs(a3, a4), adjs(a4)}, {adjs(a3), adjs(a4)}} {
+							if pr[0] != nil && pr[1] != nil && bytes.Equal(pr[0], pr[1]) {
+								c.Fail("C14.differ", "lists of adjustments that differ in one listed adjustment", "steps whose matrix adjustment lists differ (one adjustment more, or another tuple) have the SAME payload: %s", truncate(string(pr[0]), 700))
+							}
+						}
 						ma, mb, mc := mixed("linux", false), mixed("windows", false), mixed("linux", true)
 						if (ma != nil && mb != nil && bytes.Equal(ma, mb)) || (ma != nil && mc != nil && bytes.Equal(ma, mc)) {
 							c.Fail("C14.differ", "adjustment over an anonymous and named dimensions", "steps whose matrix adjustments differ in a named dimension's value (beside the anonymous dimension) have the SAME payload: %s", truncate(string(ma), 600))
